@@ -687,12 +687,15 @@ def check_source(src, maxlen=6, cap=48):
 #             'TEI' no `if` as FIRST statement of the else clause of a try             (finding of this script)
 
 class XGen(object):
-  def __init__(self, rnd, avoid=('D6', 'HJF', 'CBR', 'TEI'), max_depth=3):
+  def __init__(self, rnd, avoid=('D6', 'HJF', 'CBR', 'TEI'), max_depth=3, base_handlers=False):
     self.rnd = rnd
     self.avoid = set(avoid)
     self.max_depth = max_depth
     self.n = 0
     self.fuel = 0
+    # opt-in (own block of programs, the default stream is unchanged): handlers that name a strict base class of what
+    # is raised (KeyError -> LookupError, ValueError -> Exception) or a tuple containing one
+    self.base_handlers = base_handlers
 
   def tk(self):
     self.n += 1
@@ -788,6 +791,9 @@ class XGen(object):
       if has_fin and 'HJF' in self.avoid:
         hctx['nojump'] = True
       heads = self.rnd.choice([['ValueError'], ['ValueError', 'KeyError'], ['KeyError'], ['(ValueError, KeyError)'], ['ValueError', None]])
+      if self.base_handlers:
+        heads = self.rnd.choice([['LookupError'], ['Exception'], ['(LookupError, ValueError)'], ['ValueError', 'LookupError'],
+                                 ['KeyError', 'Exception'], ['(ArithmeticError, Exception)'], heads])
       for h in heads:
         if h is None:
           out += ['%sexcept:' % ind]
@@ -847,8 +853,8 @@ class XGen(object):
     return progen.HEADER + '\ndef f(t, c, a):\n  x = a[0]\n' + '\n'.join(body) + '\n  return x\n'
 
 
-def xrandom_program(seed, size, avoid):
-  return XGen(random.Random(seed), avoid).program(size)
+def xrandom_program(seed, size, avoid, base_handlers=False):
+  return XGen(random.Random(seed), avoid, base_handlers=base_handlers).program(size)
 
 
 def family(max_depth, avoid):
@@ -1061,6 +1067,8 @@ def main():
     put('random', progen.random_program(a.seed * 1000003 + i, size=2 + (i % 5), avoid=pg_avoid))
   for i in range(nx):
     put('xrandom', xrandom_program(a.seed * 7000003 + i, 2 + (i % 5), avoid))
+  for i in range(nx // 5):
+    put('xrandom-base-handlers', xrandom_program(a.seed * 11000003 + i, 2 + (i % 5), avoid, base_handlers=True))
   nfam = 0
   for src in family(depth, avoid):
     put('family', src, 7, 64)
